@@ -51,11 +51,7 @@ where
                     .buf
                     .genotypes()
                     .try_into_vcf_record_genotypes(&self.header, self.string_maps.strings())
-                    .and_then(|genotypes| {
-                        genotypes
-                            .genotypes()
-                            .map_err(|e| io::Error::new(io::ErrorKind::InvalidData, e))
-                    });
+                    .and_then(|genotypes| super::vcf::sample_genotypes(&genotypes));
 
                 match result {
                     Ok(genotypes) => ReadStatus::Read(genotypes),
